@@ -96,8 +96,9 @@ class PITDilationMasker(nn.Module):
         c_gamma = torch.tensor(c_gamma, dtype=torch.float32)
         # transpose & flip
         c_gamma = torch.transpose(c_gamma, 0, 1)
-        # everything on the time-axis is flipped with respect to the paper
-        # c_gamma = torch.fliplr(c_gamma)
+        # everything on the time-axis is flipped with respect to the paper: the comb must be
+        # anchored at the last (most recent) time-step, as the keep-alive and the rf mask are
+        c_gamma = torch.flip(c_gamma, (0,))
         return c_gamma
 
     @property
